@@ -34,7 +34,7 @@ func vxNameC(s string) ast.Constant { c, _ := ast.Name(s); return c }
 
 // bound types by case index
 func vxBoundType(id string) ast.BaseTerm {
-	switch vxChoose(id, 8) {
+	switch vxChoose(id, 10) {
 	case 0:
 		return ast.NumberBound
 	case 1:
@@ -53,6 +53,10 @@ func vxBoundType(id string) ast.BaseTerm {
 		return ast.AnyBound
 	case 6:
 		return symbols.NewSingletonType(vxNameC("/a/b"))
+	case 7:
+		return symbols.NewUnionType(vxNameC("/a"), vxNameC("/b"))
+	case 8:
+		return vxNameC("/b")
 	}
 	return vxNameC("/ab")
 }
@@ -65,7 +69,7 @@ func vxFactConst(id string) ast.Constant {
 	case 1:
 		return ast.String(vxString(id+"_s", 1))
 	}
-	return vxNameC([]string{"/a", "/a/b", "/ab", "/ab/c", "/b"}[vxChoose(id+"_nm", 5)])
+	return vxNameC([]string{"/a", "/a/b", "/ab", "/ab/c", "/b", "/a/c", "/a/b/x", "/b/x"}[vxChoose(id+"_nm", 8)])
 }
 
 // VxC11Bounds: program template TPL with declarations whose bound types are chosen per case index,
@@ -117,6 +121,10 @@ func VxC11Bounds() {
 		decls = []ast.Decl{vxDecl("src", []ast.BaseTerm{vxBoundType("b_src")}), vxDecl("out", []ast.BaseTerm{symbols.NewListType(vxBoundType("b_e"))})}
 		fact1("src")
 		clauses = append(clauses, vxRule(vxA("out", "L"), vxA("src", X), ast.Eq{Left: ast.Variable{Symbol: "L"}, Right: vxFn(symbols.List, X, X)}))
+	case 8: // negated name-prefix filter: narrows a union-typed variable
+		decls = []ast.Decl{vxDecl("src", []ast.BaseTerm{vxBoundType("b_src")}), vxDecl("out", []ast.BaseTerm{vxBoundType("b_out")})}
+		fact1("src")
+		clauses = append(clauses, vxRule(vxA("out", X), vxA("src", X), vxNot(vxA(":match_prefix", X, vxNameC([]string{"/a", "/a/b"}[vxChoose("neg_prefix", 2)])))))
 	case 7: // a declared predicate with both base facts and a rule
 		decls = []ast.Decl{vxDecl("src", []ast.BaseTerm{vxBoundType("b_src")}), vxDecl("out", []ast.BaseTerm{vxBoundType("b_out")})}
 		fact1("src")
